@@ -12,6 +12,8 @@ if [ -d $WT ]; then
 fi
 cd /repo && git diff --quiet || { echo "repo dirty"; exit 9; }
 git -C /repo apply $SD/patch.diff || { echo "patch does not apply to /repo HEAD"; exit 8; }
+cp /verif/evidence/$ID.json /tmp/evidence_$ID.bak 2>/dev/null
 cd /verif && bin/vcheck $ID --tier $TIER 2>&1 | grep -E "VIOLATION|KNOWN|HARNESS|SUMMARY" | cut -c1-250 | head -6
 echo "check exit=${PIPESTATUS[0]}"
 git -C /repo checkout -- .
+[ -f /tmp/evidence_$ID.bak ] && mv /tmp/evidence_$ID.bak /verif/evidence/$ID.json
